@@ -1018,6 +1018,19 @@ func genC07(c *Ctx) {
 	list = append(list, rowPaddingSweep(c, r)...)
 	list = append(list, refusedLowNamespaceCases(c, r)...)
 	list = append(list, sameNsPairCases(c, r)...)
+	for _, l := range invalidBlobTxCases(c, r) {
+		lhex := joinHexList(l)
+		c.add("build", "8", "64", lhex)
+		c.add("construct", "8", "64", lhex)
+		wit := map[string]any{"txs": len(l), "last_tx": hx(l[len(l)-1])}
+		c.guard("Build (invalid blob)", wit, func() {
+			_, _, err := square.Build(l, 8, 64)
+			c.check(err != nil, "Build", "a list with a blob transaction that carries an invalid blob is given a square", wit)
+			_, err = square.Construct(l, 8, 64)
+			c.check(err != nil, "Construct", "a list with a blob transaction that carries an invalid blob is given a square", wit)
+		})
+		c.count("list_with_invalid_blob")
+	}
 	for ci, s := range list {
 		if ci < nModel {
 			c.add("build", argsOf(s)...)
@@ -1057,6 +1070,77 @@ func genC07(c *Ctx) {
 			c.mark(s.shape())
 		}
 	}
+}
+
+// rawBlobTx: a BlobTx message encoded by hand (canonical field order), so that blobs the library's own
+// MarshalBlobTx refuses to produce can be put on the wire
+func rawBlobTx(inner []byte, blobs []genBlob, nsVersion []uint64) []byte {
+	var out []byte
+	if len(inner) > 0 {
+		out = protowire.AppendBytes(protowire.AppendTag(out, 1, protowire.BytesType), inner)
+	}
+	for i, g := range blobs {
+		var m []byte
+		m = protowire.AppendBytes(protowire.AppendTag(m, 1, protowire.BytesType), g.ns[1:])
+		if len(g.data) > 0 {
+			m = protowire.AppendBytes(protowire.AppendTag(m, 2, protowire.BytesType), g.data)
+		}
+		if g.ver != 0 {
+			m = protowire.AppendVarint(protowire.AppendTag(m, 3, protowire.VarintType), uint64(g.ver))
+		}
+		if nsVersion != nil && nsVersion[i] != 0 {
+			m = protowire.AppendVarint(protowire.AppendTag(m, 4, protowire.VarintType), nsVersion[i])
+		}
+		if len(g.signer) > 0 {
+			m = protowire.AppendBytes(protowire.AppendTag(m, 5, protowire.BytesType), g.signer)
+		}
+		out = protowire.AppendBytes(protowire.AppendTag(out, 2, protowire.BytesType), m)
+	}
+	return protowire.AppendString(protowire.AppendTag(out, 3, protowire.BytesType), "BLOB")
+}
+
+// invalidBlobTxCases: lists in which one transaction IS a blob transaction (type id BLOB, decodable message) but
+// one of its blobs is not a valid blob: no data (share version 0 without signer, share version 1 WITH a 20-byte
+// signer, with a 19-byte one), a namespace version that is a non-zero multiple of 256.
+// The layout rules give such a list no square: Build and Construct must return an error.
+func invalidBlobTxCases(c *Ctx, r *Rng) [][][]byte {
+	nss := blobNamespaces(r, 2)
+	good := func() genBlob {
+		b := randBlob(r, nss, 100)
+		b.ver, b.signer = 0, nil
+		b.data = r.Bytes(1 + r.Intn(600))
+		return b
+	}
+	var bad [][]byte
+	for v := 0; v < 4; v++ {
+		b := good()
+		var nsv []uint64
+		switch v {
+		case 0:
+			b.data = nil
+		case 1:
+			b.data, b.ver, b.signer = nil, 1, r.Bytes(20)
+		case 2:
+			b.data, b.ver, b.signer = nil, 1, r.Bytes(19)
+		case 3:
+			// (a namespace version of 2^32 is NOT in this list: the field is a uint32, the wire value is truncated
+			// to 0 by the protobuf decoder, and model and code agree that the blob is valid)
+			nsv = []uint64{0, uint64(256 * (1 + r.Intn(1000)))}
+		}
+		blobs := []genBlob{good(), b}
+		if v < 3 && r.Bool(50) {
+			blobs = []genBlob{b}
+			nsv = nil
+		}
+		bad = append(bad, rawBlobTx(r.Bytes(20+r.Intn(100)), blobs, nsv))
+	}
+	var out [][][]byte
+	for _, bt := range bad {
+		ok := good()
+		okTx := blobTxWithInner(r.Bytes(30), []genBlob{ok})
+		out = append(out, [][]byte{bt}, [][]byte{r.Bytes(50), bt}, [][]byte{r.Bytes(10), okTx, bt})
+	}
+	return out
 }
 
 // emptyInnerSweep: two blob transactions, the first with an inner transaction of every length 380..520 (so that
@@ -2155,6 +2239,25 @@ func genC14(c *Ctx) {
 			bigl := []genBlob{big}
 			s = sqCase{max: 8, thr: 64, txs: []genTx{mkSmall(inner), {raw: blobTxWithInner(r.Bytes(100+r.Intn(200)), bigl), blobs: bigl}, mkSmall(60 + r.Intn(200)), mkSmall(60 + r.Intn(300))}}
 			c.count("pfb_one_byte_past_boundary_then_refusal")
+		}
+		if i%7 == 5 {
+			// a refused blob transaction with MORE BLOBS THAN THE SQUARE HAS SHARES (each a few bytes) and an
+			// inner transaction of 300-700 bytes, between accepted small ones: whatever shortcut refuses it
+			// must leave nothing of its wrapped PFB behind
+			nss := blobNamespaces(r, 3)
+			max := pick(r, []int{2, 4})
+			mk := func(in, nb int) genTx {
+				var bl []genBlob
+				for k := 0; k < nb; k++ {
+					b := randBlob(r, nss, 100)
+					b.ver, b.signer = 0, nil
+					b.data = r.Bytes(1 + r.Intn(12))
+					bl = append(bl, b)
+				}
+				return genTx{raw: blobTxWithInner(r.Bytes(in), bl), blobs: bl}
+			}
+			s = sqCase{max: max, thr: 64, txs: []genTx{mk(60+r.Intn(250), 1), mk(300+r.Intn(400), max*max+1+r.Intn(3)), mk(20+r.Intn(300), 1), mk(20+r.Intn(200), 1)}}
+			c.count("refused_more_blobs_than_shares")
 		}
 		var ops []string
 		between := false
